@@ -51,10 +51,11 @@ class Session:
         return parse_sx(out)
 
     def trace(self, ops):
-        r = self.query("(hist " + " ".join(ops) + ")")
-        if not isinstance(r, list) or len(r) != len(ops):
-            return ("fuel" if isinstance(r, list) and r and r[-1] == "out-of-fuel" else "bad", r)
-        return ("ok", r)
+        """the last two (outcome, state) results of the history `ops` (the model re-runs the prefix; earlier states are not printed)"""
+        r = self.query("(last " + " ".join(ops) + ")")
+        if not isinstance(r, list) or len(r) != 2 or r[0] != len(ops):
+            return ("fuel" if isinstance(r, list) and r and r[0] == "out-of-fuel" else "bad", r)
+        return ("ok", r[1])
 
     def close(self):
         try:
@@ -245,7 +246,12 @@ def snapshot_locked(W):
     """model-independent: for every live known node: is_locked, raw flag, entry signature, direct children"""
     snap = {}
     for mid, o in W.alive_nodes().items():
+        try:
+            dp = any(r() is None for r in o._lock_parents_weakrefs)
+        except Exception:  # noqa: BLE001
+            dp = False
         snap[mid] = {"is_locked": bool(o.is_locked), "raw": o._is_locked, "ents": entries_sig(W, o), "mm": bool(getattr(o, "_is_memmap", False)),
+                     "dead_parents": dp,
                      "kind": W.kind(o), "children": [id(v) for _k, v in W.entries(o) if W.is_node(v)], "oid": id(o)}
     return snap
 
@@ -357,7 +363,7 @@ class HistoryRunner:
             if locked_parents:
                 # O2 member_cannot_unlock
                 self.flags["member_unlock"] += 1
-                changed = [m for m, b in before.items() if m in after and after[m]["is_locked"] != b["is_locked"]]
+                changed = [m for m, b in before.items() if m in after and b["is_locked"] and not after[m]["is_locked"]]
                 if outcome == "ok" or changed:
                     via_mm = all(before[m]["mm"] for m in locked_parents)
                     self.oracle.append(("member_cannot_unlock:unlocked" if outcome == "ok" else "member_cannot_unlock:flags-not-restored",
@@ -378,12 +384,9 @@ class HistoryRunner:
                     self.oracle.append(("shared_node:unlocked", {"root": desc.get("n"), "outside_parents": [m for m, _ in outside]},
                                         {"call": "unlock_", "effect": "unlocked-shared", "stream": "history", "pattern": None}))
             if outcome == "ok":
-                try:
-                    dead_parents = any(r() is None for x in sub.values() for r in x._lock_parents_weakrefs)
-                except Exception:  # noqa: BLE001
-                    dead_parents = False
-                if dead_parents:
-                    self.flags["gc_unlock"] += 1
+                sub_mids = {W.mid_of(x) for x in sub.values()}
+                if any(b["dead_parents"] and b["is_locked"] for m, b in before.items() if m in sub_mids):
+                    self.flags["gc_unlock"] += 1        # unlocked although a (collected) locked parent is still in the list
             if outcome == "ok":
                 # O3 unlock_root_frees
                 for x in W.reachable(target_obj).values():
@@ -401,6 +404,8 @@ class HistoryRunner:
         """chooses one applicable op, executes it on the real objects and on the model, runs the oracles.  False = stop."""
         W, t, rng = self.W, self.t, self.rng
         TD, to = t["TD"], t["torch"]
+        if not self.model_step(None, "ok"):      # objects that died since the last call (e.g. a dropped context manager) are reported first
+            return False
         hs = sorted(W.handles)
         tds = [m for m in hs if W.kind(W.handles[m]) == "td"]
         lzs = [m for m in hs if W.kind(W.handles[m]) == "lazy"]
@@ -699,8 +704,11 @@ class HistoryRunner:
         r = self.rng.random()
         T = lambda: {"op": "newtd"}                                             # noqa: E731
         S = lambda n, k, v, **kw: dict({"op": "set", "n": n, "k": k, "v": v}, **kw)   # noqa: E731
-        if r < 0.25:
+        if r < 0.2:
             return []
+        if r < 0.3:       # gc of a locked parent: root 0 -> 1 -> 2, root locked then dropped; its members can be unlocked afterwards
+            return [T(), T(), T(), S(0, "a", 1), S(1, "b", 2), S(2, "c", "leaf"), {"op": "lock", "n": 0}, {"op": "unlock", "n": 1},
+                    {"op": "drop", "n": 0}, {"op": "unlock", "n": 2}, {"op": "unlock", "n": 1}]
         # (identities are allocated in call order, nodes and leaves from one counter: nodes first, leaves last)
         if r < 0.45:      # chain 0 -> 1 -> 2 with leaves
             return [T(), T(), T(), S(0, "b", 1), S(1, "c", 2), S(0, "a", "leaf"), S(1, "a", "leaf"), S(2, "d", "leaf")]
@@ -715,6 +723,8 @@ class HistoryRunner:
     def run_with_block(self, body_len):
         """`with h.unlock_(): body` / `with h.lock_(): body` executed as a real with-statement; the model sees the op sequence"""
         W, rng = self.W, self.rng
+        if not self.model_step(None, "ok"):
+            return False
         hs = sorted(W.handles)
         n = self.pick(hs)
         if n is None:
@@ -757,6 +767,7 @@ class HistoryRunner:
             pass
         except Exception as e:  # noqa: BLE001 -- raised by the inverse call inside __exit__ (body calls are caught one by one)
             exit_exc = exc_enum(e)
+        cm = None
         if not ok:
             return False
         if not escape and post != pre:
@@ -1104,7 +1115,7 @@ def main(R):
         t1 = time.time()
         if ok:
             try:
-                stream_histories(R, 320 if R.quick else 8000, 28 if R.quick else 45)
+                stream_histories(R, 2000 if R.quick else 40000, 32 if R.quick else 50)
             except TimeoutError:
                 R.broken.append("history stream: worker pool timed out (machine overloaded?)")
         t2 = time.time()
